@@ -213,6 +213,36 @@ def check(pm: ProgramModel, ctx: Ctx) -> None:
                   f"{hname} on a second model (same names, other shape) answers as in a fresh process",
                   bad=f"{hname}: the answer for a model depends on a model with the same feature names analysed "
                       f"before it in the same process: {str(after)[:100]} vs fresh {str(fresh)[:100]}")
+    # depth-independence: "returns a value, without raising, on every well-formed model" includes deep models. A
+    # function that calls itself (directly or through others) once per tree level nests calls in proportion to the
+    # depth of the tree and ends in RecursionError on a deep enough chain. Decided by evaluating each operation on two
+    # chains, one twice as deep: the deepest nesting of calls reached must be the same.
+    def chain(n: int) -> AObj:
+        r_ = mb.feature("c0")
+        cur = r_
+        for i in range(1, n):
+            nxt = mb.feature(f"c{i}")
+            mb.relation(cur, [nxt], 1 if i % 2 else 0, 1)
+            cur = nxt
+        return mb.model(r_, [])
+    for hname, fnx in (("count_leaf_features", cl), ("get_leaf_features", gl), ("max_depth_tree", md),
+                       ("average_branching_factor", ab), ("get_feature_ancestors", ga), ("variation_points", vp)):
+        seen = []
+        for n_ in (6, 12):
+            m_ = chain(n_)
+            arg = m_ if hname != "get_feature_ancestors" else _leaves(m_._f["root"])[0]
+            it_ = Interp(pm, max_depth=60)
+            try:
+                it_.call(fnx, [arg])
+                seen.append(it_.deepest)
+            except AbsRaise as exc:
+                seen.append(("raise", exc.what))
+        ok_ = len(seen) == 2 and seen[0] == seen[1] and not isinstance(seen[0], tuple)
+        ctx.check(ok_, "C16-DEPTH-INDEPENDENT", f"nesting:{hname}", loc(fnx.unit.path, fnx.node),
+                  f"{hname} nests calls {seen[0]} deep on a chain of 6 and of 12 features alike",
+                  bad=f"{hname} nests calls {seen[0]} deep on a chain of 6 features and {seen[1]} deep on a chain of 12: the "
+                      f"nesting grows with the depth of the tree (a function on its path recurses once per level), so a "
+                      f"deep enough well-formed model ends in RecursionError instead of a value")
     # leaf predicate sites ---------------------------------------------------------------------------
     leaf_sites(pm, ctx, mb)
     # variation points: step check --------------------------------------------------------------------
